@@ -229,6 +229,8 @@ def oracle(impl, o):
                         fails.append({'key': 'rebuild-constructor', 'what': 'constructor applied to the children does not give back an equal treespec with equal paths',
                                       'got': repr(r[1])[:300], 'want': repr(spec)[:300]})
                         break
+        # the functional wrappers of ops.py say what the methods say (index by index, error by error)
+        fails += _wrappers(optree, u, spec, n)
         # transform identity / compose
         r = outcome(lambda: spec.transform(lambda s: s, lambda s: s))
         if r[0] != 'ok' or r[1] != spec or render(u.enc_spec(r[1])) != render(u.enc_spec(spec)):
@@ -274,12 +276,53 @@ def oracle(impl, o):
     return fails
 
 
+def _wrappers(optree, u, spec, n):
+    fails = []
+
+    def enc(v):
+        if isinstance(v, optree.PyTreeSpec):
+            return render(u.enc_spec(v))
+        if isinstance(v, (list, tuple)) and v and isinstance(v[0], optree.PyTreeSpec):
+            return [render(u.enc_spec(x)) for x in v]
+        return repr(v)
+
+    def same(a, b):
+        if a[0] != b[0]:
+            return False
+        if a[0] == 'err':
+            return a[1] == b[1]
+        return enc(a[1]) == enc(b[1])
+
+    pairs = [
+        ('treespec_paths', lambda: optree.treespec_paths(spec), lambda: spec.paths()),
+        ('treespec_accessors', lambda: optree.treespec_accessors(spec), lambda: spec.accessors()),
+        ('treespec_entries', lambda: optree.treespec_entries(spec), lambda: spec.entries()),
+        ('treespec_children', lambda: optree.treespec_children(spec), lambda: spec.children()),
+        ('treespec_one_level', lambda: optree.treespec_one_level(spec), lambda: spec.one_level()),
+        ('treespec_is_leaf', lambda: optree.treespec_is_leaf(spec), lambda: spec.is_leaf()),
+        ('treespec_is_leaf(strict=False)', lambda: optree.treespec_is_leaf(spec, strict=False), lambda: spec.is_leaf(strict=False)),
+        ('treespec_is_strict_leaf', lambda: optree.treespec_is_strict_leaf(spec), lambda: spec.is_leaf(strict=True)),
+        ('treespec_is_one_level', lambda: optree.treespec_is_one_level(spec), lambda: spec.is_one_level()),
+        ('treespec_transform', lambda: optree.treespec_transform(spec, lambda x: x, lambda x: x), lambda: spec.transform(lambda x: x, lambda x: x)),
+    ]
+    for j in range(-n - 1, n + 1):
+        pairs.append((f'treespec_child({j})', lambda j=j: optree.treespec_child(spec, j), lambda j=j: spec.child(j)))
+        pairs.append((f'treespec_entry({j})', lambda j=j: optree.treespec_entry(spec, j), lambda j=j: spec.entry(j)))
+    for name, w, m in pairs:
+        a, b = outcome(w), outcome(m)
+        if not same(a, b):
+            fails.append({'key': 'wrapper-' + name.split('(')[0], 'what': f'optree.{name} disagrees with the PyTreeSpec method',
+                          'wrapper': repr(a)[:200], 'method': repr(b)[:200]})
+    return fails
+
+
 def _same(a, b):
     return a is b or a == b
 
 
 def _paths(s):
-    return [tuple(getattr(e, 'uid', e) if not isinstance(e, (int, str, tuple)) else e for e in p) for p in s.paths()]
+    return [tuple(('o', e.uid) if (not isinstance(e, (int, str, tuple)) and hasattr(e, 'uid')) else e for e in p)
+            for p in s.paths()]
 
 
 def _sortable_everywhere(spec):
